@@ -81,6 +81,7 @@ def cases(draw):
     return dict(n=n, edges=edges, hkeys=[draw(st.integers(0, 15)) for _ in range(n)],
                 order=list(draw(st.permutations(list(range(n))))),
                 top=draw(st.sampled_from(['pure', 'nestable'])),
+                verbose=draw(st.integers(0, 3)) == 0,
                 program=[list(op) for op in draw(st.lists(op_st, min_size=1, max_size=6))])
 
 
@@ -118,6 +119,8 @@ def evaluate_inner(case):
             jobs[b].requires(jobs[a])
         ordered = [jobs[i] for i in case['order']]
         sched = SPure('t', *ordered) if case['top'] == 'pure' else SSched('t', *ordered)
+        if case.get('verbose'):
+            sched.verbose = True
     members = set(range(n))
     req = {i: {a for a, b in case['edges'] if b == i} for i in range(n)}
     nontrivial = []
